@@ -7,6 +7,7 @@ import (
 	"fmt"
 	"io"
 	"net/http"
+	"net/url"
 	"strings"
 
 	"github.com/ory/herodot"
@@ -37,7 +38,13 @@ func NoExtraQueryParams(except ...string) Validator {
 		for _, e := range except {
 			allowed[e] = struct{}{}
 		}
-		for key := range req.URL.Query() {
+		// URL.Query silently drops pairs it cannot parse (e.g. a ';' in a
+		// value), which would widen the selection of the request.
+		query, err := url.ParseQuery(req.URL.RawQuery)
+		if err != nil {
+			return false, fmt.Sprintf("malformed query: %s", err)
+		}
+		for key := range query {
 			if _, found := allowed[key]; !found {
 				return false, fmt.Sprintf("query parameter key %q unknown", key)
 			}
